@@ -139,6 +139,9 @@ def setup_config(
             store_p = os.path.join(load_dir, str(act), "traj.txt")
             if not os.path.isfile(store_p):
                 return None
+
+        # drop what a step that did not complete left in the data file
+        remove_unfinished_rows(config)
     else:
         # no 'current' in toml, start from step 0.
         size = len(config["simulation"]["interfaces"])
@@ -271,6 +274,37 @@ def check_config(config: dict) -> None:
                         + " settings of one of the engines in"
                         + " 'infretis.mdp'!"
                     )
+
+
+def remove_unfinished_rows(config: dict) -> None:
+    """Remove data rows written by a step that was not completed.
+
+    A path's row is appended to the data file just before the restart file
+    is replaced. If the program died in between, the restart file still lists
+    the path as active; the step is redone and the path will be written when
+    it is replaced again. Its stale row (or a cut-off last line) would
+    otherwise count the path twice.
+
+    Args
+        config: the configuration dictionary of a restarted simulation
+    """
+    data_file = config.get("output", {}).get("data_file", "")
+    if not os.path.isfile(data_file):
+        return
+    active = {str(act) for act in config["current"]["active"]}
+    with open(data_file, encoding="utf-8") as read:
+        lines = read.readlines()
+    keep = []
+    for line in lines:
+        cols = line.split()
+        if line.startswith("#") or not cols:
+            keep.append(line)
+        elif line.endswith("\n") and cols[0] not in active:
+            keep.append(line)
+    if keep != lines:
+        with open(data_file + ".tmp", "w", encoding="utf-8") as write:
+            write.writelines(keep)
+        os.replace(data_file + ".tmp", data_file)
 
 
 def write_header(config: dict) -> None:
